@@ -78,6 +78,62 @@ pub fn value_pool() -> Vec<FieldValue> {
     ]
 }
 
+/// a value fitting `ty` whose lists are non-empty (2-3 elements) wherever the type has a list level
+fn full_value(rng: &mut Rng, ty: &Ty, level: usize) -> FieldValue {
+    if level + 1 == ty.nullable.len() {
+        return match ty.base.as_str() {
+            "Int" => rng.pick(&[FieldValue::Int64(1), FieldValue::Int64(-3), FieldValue::Uint64(7), FieldValue::Uint64(u64::MAX)]).clone(),
+            "Float" => FieldValue::Float64(*rng.pick(&[1.5, -2.25, 0.0])),
+            "Boolean" => FieldValue::Boolean(rng.chance(50)),
+            _ => FieldValue::String((*rng.pick(&["a", "", "b"])).into()),
+        };
+    }
+    FieldValue::List((0..rng.range(2, 3)).map(|_| full_value(rng, ty, level + 1)).collect::<Vec<_>>().into())
+}
+
+/// damage one position of the value (chosen uniformly among all nodes of the tree)
+fn corrupt(rng: &mut Rng, v: &FieldValue) -> FieldValue {
+    fn count(v: &FieldValue) -> usize {
+        match v {
+            FieldValue::List(l) => 1 + l.iter().map(count).sum::<usize>(),
+            _ => 1,
+        }
+    }
+    fn go(rng: &mut Rng, v: &FieldValue, target: &mut isize) -> FieldValue {
+        if *target == 0 {
+            *target = -1;
+            return match rng.below(5) {
+                0 => FieldValue::Null,
+                1 => match v {
+                    FieldValue::String(_) => FieldValue::Int64(1),
+                    FieldValue::Int64(_) | FieldValue::Uint64(_) => FieldValue::String("a".into()),
+                    FieldValue::Float64(_) => FieldValue::Int64(2),
+                    FieldValue::Boolean(_) => FieldValue::Int64(0),
+                    other => other.clone(),
+                },
+                2 => FieldValue::List(vec![v.clone()].into()),
+                3 => match v {
+                    FieldValue::List(l) if !l.is_empty() => l[0].clone(),
+                    _ => FieldValue::List(vec![].into()),
+                },
+                _ => match v {
+                    FieldValue::Int64(_) | FieldValue::Uint64(_) => FieldValue::Float64(1.0),
+                    _ => FieldValue::Boolean(true),
+                },
+            };
+        }
+        *target -= 1;
+        match v {
+            FieldValue::List(l) => FieldValue::List(l.iter().map(|x| go(rng, x, target)).collect::<Vec<_>>().into()),
+            other => other.clone(),
+        }
+    }
+    let n = count(v);
+    // bias away from the root: damage inside the structure is the interesting case
+    let mut target = if n > 1 && rng.chance(85) { rng.range(1, n - 1) as isize } else { 0 };
+    go(rng, v, &mut target)
+}
+
 pub struct Verdict {
     pub err: Option<(String, String)>,
     pub accepted: bool,
@@ -195,6 +251,19 @@ pub fn maps_for(ctx: &CaseCtx, rng: &mut Rng) -> Vec<Args> {
         for _ in 0..6 {
             let mut a = ctx.args.clone();
             a.insert(n.clone(), rng.pick(&pool).clone());
+            out.push(a);
+        }
+    }
+    // structure-aware corruption: a value that FITS the variable's type (non-empty lists at every level
+    // where possible), then ONE leaf or sub-list at a random position is damaged (null, wrong scalar kind,
+    // one nesting level too many / too few). Whether the result still fits is decided by the oracle.
+    for n in &names {
+        let Some(ty) = ctx.compiled.ir_query.variables.get(n.as_str()).and_then(|t| Ty::parse(&t.to_string())) else { continue };
+        for _ in 0..4 {
+            let good = full_value(rng, &ty, 0);
+            let bad = corrupt(rng, &good);
+            let mut a = ctx.args.clone();
+            a.insert(n.clone(), bad);
             out.push(a);
         }
     }
